@@ -27,6 +27,10 @@ def attribute(req, event, ev=None, text=""):
         return "C08"      # the needed set was computed under level limits
     if event in ("copy", "copyctor", "assign"):
         return "C11"      # whatever is wrong right after a copy is a property of the copy
+    if event == "setcoef" and not name.startswith("obs-"):
+        return "C04"      # coefficient overwrite: coefficients read back, values inferred
+    if event in ("remove", "removen") and not name.startswith("obs-"):
+        return "EXT"      # removal by coefficient size is specified beyond the listed properties
     if name in ("obs-nodal",):
         return "C01"
     if name in ("obs-routes",):
@@ -62,6 +66,14 @@ def attribute(req, event, ev=None, text=""):
             return "C07"        # a documented call (e.g. a scale correction) was refused
         return "C14"
     return "C07"
+
+
+def mixed_family(rnd, n, tag="x"):
+    """histories with every kind of step enabled (copies, file round trips, transforms, construction, coefficient overwrites,
+    removal, documented misuse): every grid check runs a slice of it, so that a rejection owned by another property is also seen
+    by that property's own check"""
+    return [history(rnd, "%s%d" % (tag, i), steps=rnd.randint(4, 9), with_bad=(i % 3 == 0), with_copy=(i % 2 == 0), with_rt=(i % 4 == 1),
+                    with_construct=True, with_transform=(i % 2 == 1), with_coef=(i % 3 == 1)) for i in range(n)]
 
 
 def ivec(v):
@@ -171,9 +183,10 @@ def refine_line(rnd, info, allow_scale=True):
 
 
 BAD_ANY = ["make_dims0", "make_outs_neg", "make_depth_neg", "make_rule_seq", "make_rule_local", "make_order",
-           "make_wavelet_order", "make_aw_size", "make_ll_size", "read_missing", "read_garbage", "read_future",
+           "make_wavelet_order", "make_aw_size", "make_ll_size", "make_aw_ok_ll_bad", "make_local_ll_size", "make_wavelet_ll_size",
+           "make_fourier_aw_size", "read_missing", "read_garbage", "read_future",
            "read_unknown_type", "read_trunc_asc", "read_trunc_bin", "read_bin_garbage"]
-BAD_NONEMPTY = ["transform_size", "load_size",
+BAD_NONEMPTY = ["transform_size", "transform_a_size", "transform_b_size", "transform_b_empty", "cand_aw_ok_ll_bad", "cand_aw_bad_ll_ok", "load_size",
                 "aniso_growth", "aniso_output", "aniso_ll_size", "surp_tol_neg", "surp_output", "surp_ll_size",
                 "surpl_output", "surpl_ll_size", "cand_ll_size", "cand_output", "cand_aw_size", "candl_output",
                 "candl_ll_size", "loadc_ysize", "setcoef_size", "cand_not_constructing", "loadc_not_constructing"]
@@ -182,9 +195,11 @@ BAD_LOADED = ["eval_size", "iweights_size", "dweights_size", "surpl_scale_size"]
 
 
 def history(rnd, label, fam=None, steps=6, with_bad=False, with_copy=False, with_rt=False, with_construct=True,
-            with_transform=False, limits=None, d=None):
+            with_transform=False, limits=None, d=None, with_coef=False):
     """one random operation history on one (or two) grid objects"""
     L = ["SCEN " + label]
+    if with_coef and fam is None and rnd.random() < 0.3:
+        fam = "localp"          # removal by coefficient size exists for local polynomial grids only
     line, info = make_line(rnd, fam, limits=limits, d=d)
     L.append(line)
     epoch = 0
@@ -228,6 +243,11 @@ def history(rnd, label, fam=None, steps=6, with_bad=False, with_copy=False, with
             continue
         if with_rt and rnd.random() < 0.2:
             L.append("rtswap %d" % rnd.randint(0, 1))
+            continue
+        if with_coef and not constructing and rnd.random() < 0.12:
+            epoch += 1
+            L.append("setcoef %d" % epoch)       # coefficients overwritten directly (the needed points become loaded if nothing was)
+            loaded = True
             continue
         if constructing:
             k = rnd.random()
@@ -275,6 +295,21 @@ def history(rnd, label, fam=None, steps=6, with_bad=False, with_copy=False, with
             L.append(rnd.choice(["clear", "merge", "clearlimits"]))
         else:
             L.append(refine_line(rnd, info))
+    if with_coef and fam == "localp" and loaded and not constructing and rnd.random() < 0.6:
+        # points removed by coefficient size; afterwards only what the documentation calls safe: get, evaluate, file I/O, copies
+        out = rnd.randint(-1, info["outs"] - 1)
+        for _ in range(rnd.randint(1, 3)):
+            k = rnd.random()
+            if k < 0.4:
+                L.append("remove %d %d" % (rnd.randint(0, 12), out))
+            elif k < 0.6:
+                L.append("removen %d %d" % (rnd.randint(0, 9), out))
+            elif k < 0.75:
+                L.append("@2 copyctor")
+            elif k < 0.85:
+                L.append("@2 copy 0 -1")
+            else:
+                L.append("rtswap %d" % rnd.randint(0, 1))
     return "\n".join(L) + "\n"
 
 
@@ -467,6 +502,13 @@ def run_grid(ctx, scen_sets, obs_mask, prop, chunk=None, timeout=240, variant="h
         sig = "crash:%s:%s" % (act[0] if act else "?", "hang" if c["timed_out"] else "rc=%s" % c["rc"])
         ctx.report(sig, "the library crashed or hung inside a scripted call (no exception): %s" % json.dumps(c)[:1500], c)
     ctx.extra["driver_crashes"] = ctx.extra.get("driver_crashes", 0) + len(crashes)
+    # which trace actions the recorded executions exercise (vacuity: an action never taken was never checked)
+    counts = ctx.extra.setdefault("events_by_action", {})
+    for f in files:
+        for r in vf.read_ndjson(f[2]):
+            k = r.get("e", "?")
+            if k not in ("Reset", "End"):
+                counts[k] = counts.get(k, 0) + 1
     if not validate:
         # executions recorded for comparison only (grids too large for TLC's set arithmetic)
         if keep_traces is not None:
@@ -545,6 +587,8 @@ def run_grid(ctx, scen_sets, obs_mask, prop, chunk=None, timeout=240, variant="h
             keep_traces[os.path.basename(f[1])] = f[2]
     ctx.extra["executions_recorded"] = ctx.extra.get("executions_recorded", 0) + nscen
     ctx.extra["rejections_owned_by_other_properties"] = foreign
+    if foreign:
+        print("NOTE: rejections owned by other properties (examined by their own checks, which run the same mixed family): %s" % json.dumps(foreign))
     if files:
         rows = vf.read_ndjson(files[0][2])
         ctx.sample({"kind": "recorded execution prefix", "events": [slim(r) for r in rows[:4]]})
@@ -660,6 +704,11 @@ def script_to_lines(script, c, label):
             L.append("aniso iptotal %d 0 %s" % (st["mg"], ivec(ll)))
         elif a in ("clear", "merge", "begin", "finish", "clearlimits"):
             L.append(a)
+        elif a == "setcoef":
+            ep += 1
+            L.append("setcoef %d" % ep)
+        elif a == "removen":
+            L.append("removen %d -1" % st["keep"])
         elif a == "deliver":
             ep += 1
             pts = st["p"]
